@@ -4,6 +4,7 @@
 extern const op_t OPS_MUL[], OPS_ELIM[], OPS_MOVE[], OPS_RC[], OPS_OBS[];
 extern const int NOPS_MUL, NOPS_ELIM, NOPS_MOVE, NOPS_RC, NOPS_OBS;
 static op_t ALL[160];
+static void reparam_generic(opcase_t *c, rng_t *r);
 const op_t *OPS = ALL;
 int NOPS = 0;
 static void add(const op_t *t, int n) {
@@ -11,14 +12,68 @@ static void add(const op_t *t, int n) {
 #if !__M4RI_HAVE_OPENMP
     if (t[i].flags & OPF_OMP) continue;
 #endif
-    ALL[NOPS++] = t[i];
+    ALL[NOPS] = t[i];
+    ALL[NOPS].reparam = reparam_generic;
+    NOPS++;
+  }
+}
+/* re-draw tuning parameters only (table parameter k, recursion cutoff, switching threshold) */
+static const int RP_CUT[] = {0, 1, 63, 64, 65, 100, 128, 192, 256, 512, 1000, 2048, 4096};
+static void reparam_generic(opcase_t *c, rng_t *r) {
+  const char *f = c->op->fam, *n = c->op->name;
+  int cut = RP_CUT[rng_int(r, 0, 12)];
+  if (!strcmp(f, "mul")) {
+    if (!strncmp(n, "mzd_mul_mp", 10) || !strncmp(n, "mzd_addmul_mp", 13) || !strcmp(n, "mzd_mul") || !strcmp(n, "mzd_addmul") || strstr(n, ":sqr"))
+      c->ip[0] = cut;
+    else if (strstr(n, "m4rm"))
+      c->ip[1] = rng_int(r, -1, 17);
+  } else if (!strcmp(f, "ech")) {
+    c->ip[1] = rng_int(r, 0, 10);
+    if (!strcmp(n, "_mzd_echelonize_m4ri")) {
+      static const double TH[] = {0.0, 0.05, 0.15, 0.5, 1.0, 2.0};
+      c->ip[2] = rng_int(r, 0, 1);
+      c->dp[0] = TH[rng_int(r, 0, 5)];
+    }
+  } else if (!strcmp(f, "ple")) {
+    static const int RK[] = {0, 2, 3, 4, 5, 6, 7, 8};
+    c->ip[0] = cut;
+    c->ip[1] = RK[rng_int(r, 0, 7)];
+  } else if (!strcmp(f, "trsm") || !strcmp(f, "solve") || !strcmp(f, "kernel")) {
+    c->ip[0] = cut;
+  } else if (!strcmp(f, "inv")) {
+    if (!strcmp(n, "mzd_inv_m4ri")) c->ip[0] = rng_int(r, 0, 10);
   }
 }
 void ops_init(void) {
   if (NOPS) return;
+  gc_default();
   add(OPS_MUL, NOPS_MUL);
   add(OPS_ELIM, NOPS_ELIM);
   add(OPS_MOVE, NOPS_MOVE);
   add(OPS_RC, NOPS_RC);
   add(OPS_OBS, NOPS_OBS);
+}
+
+genconst_t GC;
+void gc_default(void) {
+  GC.mul_block = __M4RI_MUL_BLOCKSIZE;
+  GC.strassen_cutoff = __M4RI_STRASSEN_MUL_CUTOFF;
+  GC.ple_cutoff = __M4RI_PLE_CUTOFF;
+  GC.l1 = __M4RI_CPU_L1_CACHE;
+  GC.l3 = __M4RI_CPU_L3_CACHE;
+}
+void gc_set(int which) {
+  if (which == 0) {
+    GC.mul_block = 256;
+    GC.strassen_cutoff = 512;
+    GC.ple_cutoff = 8192;
+    GC.l1 = 4096;
+    GC.l3 = 65536;
+  } else {
+    GC.mul_block = 2048;
+    GC.strassen_cutoff = 4096;
+    GC.ple_cutoff = 524288;
+    GC.l1 = 32768;
+    GC.l3 = 56623104;
+  }
 }
